@@ -580,6 +580,28 @@ def check_property(pid, tier, seed):
         holds += windows[:cap // 2]
         rng.shuffle(untils)
         holds += untils[:cap // 3]
+        # "the event loop has been notified, then the notifier's next store happens": the on-demand hook notify.done (it exists
+        # only for schedules that name it) parks the notifier after notifyToPullNextJobs while the event loop runs as far as it can.
+        # Drawn from a generator of its own so that all other variants are what they were before this hook existed.
+        rng2 = random.Random(seed * 31 + 7)
+        nd = []
+        for e in eps:
+            if e['prog']['family'].startswith('m1:') or e['end']['result'] != 'ok' or e['prog'].get('sched', {}).get('kind') == 'free':
+                continue
+            if not any(x['ev'] in ('notify.sent', 'notify.dropped') for x in e['events']):
+                continue
+            ops = set(o['op'] for c in e['prog']['clients'] for o in c['ops'])
+            weight = 2 if ops & {'Restart', 'Resume', 'Bind', 'Stop', 'TunePool', 'Purge'} else 1
+            for k in range(weight):
+                hp = json.loads(json.dumps(e['prog']))
+                hp['id'] = '%sn%d' % (e['prog']['id'], k)
+                hp['sched'] = {'kind': 'hold', 'label': 'notify.done', 'nth': rng2.choice([0, 0, 1, 2, 3]), 'seed': rng2.randrange(1 << 30)}
+                if rng2.random() < 0.5:
+                    hp['sched']['favor'] = 'disp'
+                nd.append((weight, hp))
+        rng2.shuffle(nd)
+        nd.sort(key=lambda t: -t[0])
+        holds += [hp for _, hp in nd[:cap // 14]]
         heps, hcr = vlib.run_episodes(binary, holds, scratch, gomaxprocs=1, tag='h')
         cov['hold_variants'] = len(heps)
         eps += heps
